@@ -1,10 +1,17 @@
 #!/bin/bash
-# Build the whole harness offline from files on disk (first build ~3-5 min on 16 cores).
+# Build the whole harness offline from files on disk (first build ~5-8 min on 16 cores).
+# Every check builds its crate with `cargo build -p <crate>`; cargo unifies features over the selected
+# packages only, so a `--workspace` build would produce differently-featured dependency builds and the
+# first run of every check would rebuild them. Build package by package instead, exactly as ./check does.
 set -e
 ROOT="$(cd "$(dirname "$0")" && pwd)"
 export CARGO_NET_OFFLINE=true
 cd "$ROOT/harness"
-cargo build --release --offline --workspace 2>&1 | tail -3
-# the 1 KiB-chunk build of vh-client (C14/C15)
+for c in vh-store vh-node vh-protocol vh-registers vh-parsers vh-bootstrap vh-client vh-mgmt; do
+  cargo build --release --offline -p "$c" 2>&1 | tail -1
+done
+# the 1 KiB-chunk build of vh-client (C14/C15) and the other pre-built children
 "$ROOT/harness/pre-C14.sh"
+# the hooked antnode C20 starts as a subprocess (same command as vh-mgmt's ensure_antnode)
+cargo build --release --offline --locked --manifest-path /repo/ant-node/Cargo.toml --features verif-hooks --bin antnode --target-dir "$ROOT/harness/target-antnode" 2>&1 | tail -1
 echo "setup done"
